@@ -8,7 +8,7 @@ From Hera.Lib Require Import Py Machine Word16.
 From Hera.Gen Require Import Ops Convert.
 From Hera.Spec Require Import ISA Wf PseudoSpec.
 From Hera.Model Require Import OpRep InstrOf Bitvec.
-From Hera.Proofs Require Import C03_Pseudo C03_Label.
+From Hera.Proofs Require Import C03_Pseudo C03_Label C03_CallAny.
 Import ListNotations.
 Open Scope Z_scope.
 
@@ -108,6 +108,14 @@ Theorem C03_call_label : forall a l s, wf_vm s -> reg_ix a -> a <> 13 -> a <> 14
      = Ok (tt, ps_CALL a l s).
 Proof. exact call_label_meaning. Qed.
 Print Assumptions C03_call_label.
+
+(* ... and for EVERY register Ra - R13 and FP included, where the two exchanges overlap and the full meaning is left
+   open - the call arrives at the label *)
+Theorem C03_call_label_arrives : forall a l s, wf_vm s -> reg_ix a -> 0 <= l < 65536 ->
+  exists s', run_ops [mkop O_SETLO [R 13; N (l mod 256)]; mkop O_SETHI [R 13; N (l / 256)]; mkop O_CALL [R a; R 13]] s
+             = Ok (tt, s') /\ pc s' = l.
+Proof. exact call_label_arrives. Qed.
+Print Assumptions C03_call_label_arrives.
 
 (* OPCODE(w) expands to exactly the instruction w decodes to (whose meaning is C01's) *)
 Theorem C03_OPCODE : forall w o, disassemble w false = Ok o -> convert_full (mkop O_OPCODE [N w]) = Ok [o].
